@@ -460,6 +460,9 @@ func runC35(c *Ctx) {
 				okVal = len(cl.Args) == 3 && strings.HasSuffix(rw.Prov(cl.Args[1]), ".Out.URL.Host") && strings.HasSuffix(rw.Prov(cl.Args[2]), ".GatewayPort")
 				okVal = okVal && rw.FactsAt(call).Cmp(func(e, tag ast.Expr, truth bool, fa *Fact) bool {
 					be, ok := e.(*ast.BinaryExpr)
+					if !ok {
+						return false
+					}
 					v, _ := rw.ConstVal(be.Y)
 					return ok && !truth && be.Op == token.EQL && v == "443"
 				})
@@ -710,10 +713,16 @@ func runC37(c *Ctx) {
 	// unreachable when a credential is empty
 	ok := mt.FactsAt(route).Cmp(func(e, tag ast.Expr, truth bool, fa *Fact) bool {
 		be, okb := e.(*ast.BinaryExpr)
+		if !okb {
+			return false
+		}
 		v, _ := mt.ConstVal(be.Y)
 		return okb && !truth && be.Op == token.EQL && v == "\"\"" && mt.Prov(be.X) == "recv.authUser"
 	}) && mt.FactsAt(route).Cmp(func(e, tag ast.Expr, truth bool, fa *Fact) bool {
 		be, okb := e.(*ast.BinaryExpr)
+		if !okb {
+			return false
+		}
 		v, _ := mt.ConstVal(be.Y)
 		return okb && !truth && be.Op == token.EQL && v == "\"\"" && mt.Prov(be.X) == "recv.authPass"
 	})
